@@ -20,6 +20,21 @@ const modPath = "github.com/creachadair/mds"
 var repoDir = "/repo"
 var verifDir = "/verif"
 
+// GOVC_REPO and GOVC_OUT redirect the tree under verification and the evidence/replay output; the self-test uses
+// them to run checks against a scratch worktree carrying a seeded change without touching /repo or /verif/evidence.
+func init() {
+	if d := os.Getenv("GOVC_REPO"); d != "" {
+		repoDir = d
+	}
+}
+
+func outDir() string {
+	if d := os.Getenv("GOVC_OUT"); d != "" {
+		return d
+	}
+	return verifDir
+}
+
 type FuncInfo struct {
 	Obj      *types.Func
 	Decl     *ast.FuncDecl
